@@ -42,6 +42,7 @@ def bounds(tier, seed):
         "drives": ["dmm (per-atom)", "local"],
         "ordering": "off; on with every non-identity p in S_3 (S_4 generators for zig4)",
         "crash_points": "every progress() call of the run; double crash (k, then 2 calls later) for every k; thorough: double crashes at distances 0, 1, 3 as well",
+        "interrupts": "bent3: an exception delivered when entering ANY inner call of the stepping code (pair evolution, energy minimisation, bath updates), autosave after every step, then resume",
         "time_steps": 3,
     }
 
@@ -61,6 +62,11 @@ def cases(tier, seed):
             for p in (None, [2, 0, 1]):
                 yield {"path": "tdvp", "shape": shape, "kind": "dmm", "perm": p, "spam": [0, 1, 0]}
             yield {"path": "tdvp", "shape": shape, "kind": "global", "perm": None, "xy": True}
+        if n == 3:
+            # interrupts in the MIDDLE of a step (an exception such as KeyboardInterrupt reaching the caller), autosave after every step
+            for path in ("tdvp", "dmrg", "noisy"):
+                for p in (None, [2, 0, 1]):
+                    yield {"path": path, "shape": shape, "kind": "dmm", "perm": p, "interrupts": True}
         for path in ("tdvp", "dmrg", "noisy"):
             for kind in ("dmm", "local"):
                 if n == 2 and kind == "local":
@@ -155,6 +161,37 @@ def run_case(case):
         leftovers = [f for f in os.listdir(wd)]
         if leftovers:
             return result(False, sig="leftover-file|uninterrupted", msg=f"{label}: files left after an uninterrupted run: {leftovers}", outcome="left")
+        if case.get("interrupts"):
+            sc = A.Session(wd, save_calls="all", rng=rng(), optimiser=case["perm"], np_script=_np_script(case), count_inner=True)
+            status, res = sc.run(seq, config())
+            if status != "done" or A.compare_digests(base, A.results_digest(res)):
+                return result(False, sig="harness|nondeterministic", msg=f"{label}: run with an autosave after every step differs from the plain run ({status})", outcome="nd")
+            inner = sc.inner_calls
+            resumed = 0
+            for j in range(inner):
+                s1 = A.Session(wd, save_calls="all", rng=rng(), optimiser=case["perm"], np_script=_np_script(case), interrupt_at=j)
+                status, info = s1.run(seq, config())
+                evaluations += 1
+                if status != "crashed":
+                    return result(False, sig="harness|interrupt-not-delivered", msg=f"{label}: interrupt at inner call {j} of {inner}: run ended with {status}", outcome="nd")
+                path = s1.autosave_file
+                if path is None or not os.path.isfile(path):
+                    for f in os.listdir(wd):
+                        os.remove(os.path.join(wd, f))
+                    continue  # interrupted before the first snapshot: nothing to resume from
+                s2 = A.Session(wd, rng=s1.rng)
+                status3, final = s2.resume(path)
+                resumed += 1
+                if status3 != "done":
+                    return result(False, sig=f"resume-failed|{case['path']}|interrupt", msg=f"{label}: interrupted inside a step (inner call {j} of {inner}), resume ended with {status3}: {final}", outcome="resfail")
+                d = A.compare_digests(base, A.results_digest(final))
+                if d:
+                    return result(False, sig=f"resume-differs|{case['path']}|interrupt|{d.split(':')[0].split(' ')[0]}", msg=f"{label}: interrupted inside a step (inner call {j} of {inner}), resumed results differ from the uninterrupted run: {d}", outcome="diff", states=evaluations, transitions=evaluations)
+                left = os.listdir(wd)
+                if left:
+                    return result(False, sig="leftover-file|resumed", msg=f"{label}: files left after the resumed run finished: {left}", outcome="left")
+            occ = base["occupation"][1][-1].real
+            return result(True, outcome=["interrupts", inner, resumed, rnd(occ, 4)], states=evaluations, transitions=evaluations, nontrivial=resumed > 0, extra={"evaluations": evaluations})
         plans = [(k,) for k in range(total)] + [(k, 2) for k in range(0, max(total - 3, 0))]
         if case.get("tier") == "thorough":
             plans += [(k, j) for k in range(0, max(total - 2, 0)) for j in (0, 1, 3) if k + j + 1 < total]
